@@ -111,6 +111,7 @@ class CliSim(object):
         self.log = []
         self.violation = None
         self.seen = {}          # argv tuple -> first outcome (C18 repeat clause)
+        self._argv_objects = {}  # argv tuple -> the list object handed to driver.run (reused for repeats)
         self._ds = []
 
     def emit(self, rec):
@@ -152,7 +153,7 @@ class CliSim(object):
         self.stats["probe:contained_crashes"] += 1
         return {"status": "crash(wait_status=%d)" % status, "ok": False, "stdout": "", "file": None, "fired": []}
 
-    def run_cmd(self, argv, plan=None, hook=None):
+    def run_cmd(self, argv, plan=None, hook=None, reuse_list=False):
         import verif.driver
         import matplotlib.pyplot as mpl
         for f in ("out.txt", "out.png"):
@@ -173,7 +174,12 @@ class CliSim(object):
         status = "ok"
         try:
             with contextlib.redirect_stdout(buf):
-                verif.driver.run(["verif"] + list(argv))
+                if reuse_list:
+                    # a caller that keeps one argument list and passes the same object again
+                    full = self._argv_objects.setdefault(tuple(argv), ["verif"] + list(argv))
+                else:
+                    full = ["verif"] + list(argv)
+                verif.driver.run(full)
         except (SystemExit, Exception) as e:
             status = classify(e)
         fired = list(self.ff.fired_now)
@@ -224,6 +230,9 @@ class CliSim(object):
         os.makedirs(self.workdir, exist_ok=True)
         os.chdir(self.workdir)
         np_state = np.random.get_state()
+        # the global NumPy RNG starts every session in a state that is a function of the run's seed
+        from . import prng as _prng
+        np.random.seed(_prng.derive_int(self.spec.get("seed"), self.spec.get("run"), "np-global-cli") % (2 ** 32))
         old_show = mpl.show
         mpl.show = lambda *a, **k: None
         self.env.install()
@@ -231,6 +240,9 @@ class CliSim(object):
         try:
             self.emit({"seed": self.spec.get("seed"), "run": self.spec.get("run"), "prop": self.spec.get("prop")})
             self.names = W.materialise(self.world, ".")
+            for name, text in (self.spec.get("session_configs") or {}).items():
+                with open(name, "w") as f:
+                    f.write(text)
             for step, case in enumerate(self.cases):
                 if self.violation is not None:
                     break
@@ -472,7 +484,7 @@ class CliSim(object):
 
     def case_cmd(self, step, case):
         argv = case["argv"]
-        o = self.run_cmd(argv)
+        o = self.run_cmd(argv, reuse_list=bool(self.spec.get("reuse_argv")))
         key = tuple(argv)
         self.emit({"i": step, "kind": "cmd", "o": self.odig(o)})
         if key in self.seen:
